@@ -26,5 +26,17 @@ SplitSetDefault == {"Import", "SetDefault"}
 SplitSetLabel == {"Import", "SetLabel"}
 
 Edge == PrintT(<<"EDGE", ToJson([from |-> State, act |-> act', who |-> who', to |-> State'])>>)
+\* a prepared wallet for the reference two-thread configuration Wallet_C38c.cfg (ImportIds = {1}, NewIdSeq = <<2>>,
+\* MaxObj = 3): account 1 (imported, label "x", default) and account 2 (created), both with password "p".
+\* props/_wallet.py generates the prepared wallets of a run (module Wallet_Seeds) from reachable states of the
+\* sequential model, together with the call sequence that leads there.
+SeedRef == {[accts |-> <<1, 2>>,
+             objs |-> <<[id |-> 1, label |-> "x", dflt |-> TRUE, scheme |-> "SHA256withECDSA", pwd |-> "p", enc |-> "low"],
+                        [id |-> 2, label |-> "", dflt |-> FALSE, scheme |-> "SHA256withECDSA", pwd |-> "p", enc |-> "low"], Null>>,
+             addrIdx |-> <<1, 2>>, labelIdx |-> ("" :> 0 @@ "x" :> 1 @@ "x_1" :> 0), dfltPtr |-> 1, nnew |-> 1, fault |-> FALSE]}
+InitRef == InitFrom(SeedRef)
+
+EdgeN == PrintT(<<"EDGE", ToJson([from |-> StateN, act |-> act', who |-> who', to |-> StateN'])>>)
+InitOutN == (TLCGet("level") = 1) => PrintT(<<"INIT", ToJson(StateN)>>)
 InitOut == (TLCGet("level") = 1) => PrintT(<<"INIT", ToJson(State)>>)
 =============================================================================
